@@ -546,4 +546,167 @@ theorem form_step {cfg : Cfg} {n : Net} {x : Nat} {st : NetStation} {l : Int} (h
     unfold FormOut
     exact Or.inl ⟨hst', b1, by rw [b2]; exact hv2, hinv', hS.gx⟩
 
+/-! ## Whole runs of the lone claimant -/
+
+/-- What the lone claimant may transmit. -/
+def FormTx (ts : Nat) (c : Ctx) : Prop :=
+  c.tx = none ∨ c.tx = some (selfToken ts) ∨ ∃ a, a ≠ ts ∧ c.tx = some (statusRequestBytes a ts)
+
+/-- **Run of the lone claimant until its one-station ring stands** (`B` = latest time): every poll returns
+regularly and receives nothing; the station transmits only self-addressed tokens and GAP requests to other
+addresses; until the ring stands every poll happens no later than `B` and leaves the station in `ClaimToken` or
+`PassToken`; the poll that completes the formation sends the token to the station itself, which is then in
+`UseToken` with the ring view of the one-member ring; all later polls return regularly. -/
+def FormRun (x ts : Nat) (B : Int) : Net → List Int → Prop
+  | _, [] => True
+  | n, now :: rest =>
+    ∃ n' c, n.poll x now = (n', [], some (.ok c)) ∧ now ≤ B ∧ FormTx ts c ∧
+      ((c.s.st = .useToken ⟨now, none⟩ false ∧ c.tx = some (selfToken ts) ∧ RingView [ts] ts c.s.ring ∧
+          SoloRun x n' rest) ∨
+       (((∃ step, c.s.st = .claimToken step) ∨ c.s.st = .passToken false .first) ∧ FormRun x ts B n' rest))
+
+theorem SStage.rest_ge (cfg : Cfg) (ts hsa : Nat) (stage : SStage) : cfg.P ≤ stage.rest cfg ts hsa := by
+  cases stage <;> simp only [SStage.rest] <;> omega
+
+theorem SStage.ok_state {s : Station} {stage : SStage} (h : stage.ok s) :
+    (∃ step, s.st = .claimToken step) ∨ s.st = .passToken false .first := by
+  cases stage <;> simp only [SStage.ok] at h
+  · exact .inl ⟨_, h⟩
+  · exact .inl ⟨_, h.1⟩
+  · exact .inl ⟨_, h.1⟩
+  · exact .inl ⟨_, h.1⟩
+  · exact .inr h
+
+theorem solo_forms {cfg : Cfg} (hok : cfg.Ok) (x ts hsa : Nat) (B : Int) :
+    ∀ (evs : List Int) (n : Net) (st : NetStation) (l : Int) (stage : SStage), Solo cfg n x st l → stage.ok st.s →
+    st.s.p.address = ts → st.s.p.hsa = hsa → RingView [ts] ts st.s.ring →
+    max (n.bus.seen.getD x 0) (l + ((stage.wait cfg : Nat) : Int)) + ((stage.rest cfg ts hsa : Nat) : Int) ≤ B →
+    SchedXT cfg.P (n.bus.seen.getD x 0) evs → FormRun x ts B n evs := by
+  intro evs
+  induction evs with
+  | nil => intro _ _ _ _ _ _ _ _ _ _ _; trivial
+  | cons now rest ih =>
+    intro n st l stage h hs hts hhsa hv hB hsch
+    obtain ⟨hlt, hle, hrest⟩ := hsch
+    subst hts hhsa
+    obtain ⟨n', c, hp, hseen, hnow, hout⟩ := form_step h hok stage hs hv B now hlt hle hB
+    have hrg := SStage.rest_ge cfg st.s.p.address st.s.p.hsa stage
+    refine ⟨n', c, hp, by omega, ?_, ?_⟩
+    · rcases hout with ⟨-, b, -⟩ | ⟨_, _, -, -, -, -, b, -⟩
+      · exact .inr (.inl b)
+      · exact b
+    · rcases hout with ⟨a1, a2, a3, a4, a5⟩ | ⟨stage', l', hS, hs', hv', hp', -, hB'⟩
+      · exact .inl ⟨a1, a2, a3, solo_regular x rest n' (upSt st c) a5 h.alive h.online a4⟩
+      · refine .inr ⟨SStage.ok_state hs', ?_⟩
+        have e1 : (upSt st c).s.p.address = st.s.p.address := by show c.s.p.address = _; rw [hp']
+        have e2 : (upSt st c).s.p.hsa = st.s.p.hsa := by show c.s.p.hsa = _; rw [hp']
+        exact ih n' (upSt st c) l' stage' hS hs' e1 e2 hv' (by rw [hseen]; exact hB') (by rw [hseen]; exact hrest)
+
+/-! ## From listening on a silent bus to the first claim -/
+
+theorem listen_dispatch_quiet (c : Ctx) (now l : Int) (coll : Nat) (hst : c.s.st = .listenToken none coll) (hrx : c.rx = [])
+    (hl : c.s.lastBusActivity = some l) (hw : now < l + (c.s.p.tokenLostTimeout : Nat)) (hlt : l < now) :
+    dispatch c now = .ok c := by
+  unfold dispatch
+  simp only [hst]
+  unfold doListenToken
+  simp only [hst]
+  rw [handleLost_quiet c now l hl (by show ¬ (now - l).natAbs ≥ c.s.p.tokenLostTimeout; omega)]
+  simp only [hst, hrx, receiveAll_nil, foldTelegrams]
+  cases c
+  simp only at hrx
+  subst hrx
+  rfl
+
+/-- Time budget of the formation after the first claim token (sent at `q`): the ring stands by `q + formTime`. -/
+def Cfg.formTime (c : Cfg) (hsa : Nat) : Nat :=
+  2 * c.b33 + (c.P + 2 * c.b33 + (hsa - 1) * c.sweepStep + 3 * c.P)
+
+/-- The lone listener is polled before its time-out: nothing happens. -/
+theorem lone_listen_wait {cfg : Cfg} {n : Net} {x : Nat} {st : NetStation} {l : Int} (h : Solo cfg n x st l) (hok : cfg.Ok)
+    (coll : Nat) (hst : st.s.st = .listenToken none coll) (now : Int) (hown : n.bus.seen.getD x 0 < now)
+    (hw : now < l + (st.s.p.tokenLostTimeout : Nat)) :
+    ∃ n' c, n.poll x now = (n', [], some (.ok c)) ∧ c.tx = none ∧ Solo cfg n' x st l ∧ n'.bus.seen.getD x 0 = now := by
+  have hno : st.s.st ≠ .offline ∧ st.s.st ≠ .passiveIdle := by rw [hst]; simp
+  have hup : upSt st { s := st.s, apps := st.apps, rx := [] } = st := by unfold upSt; rw [← h.rx]
+  by_cases hle : now ≤ l
+  · obtain ⟨n', hp, hS, hseen⟩ := solo_ongoing h now hle hno.1 hno.2
+    exact ⟨n', _, hp, rfl, hS, hseen⟩
+  · have hd := listen_dispatch_quiet { s := st.s, apps := st.apps, rx := [] } now l coll hst rfl h.stamp hw (by omega)
+    obtain ⟨n', hp, hS, hseen⟩ := solo_step h hok.rate now hown (by omega) _ hno.1 hno.2 hd l h.son rfl rfl h.stamp
+      (Int.le_refl _) (fun b hb => by cases hb)
+    rw [hup] at hS
+    exact ⟨n', _, hp, rfl, hS, hseen⟩
+
+/-- The poll at which the lone listener's time-out has run out: the first claim token; the station is in the
+stage `c2` of the formation. -/
+theorem lone_listen_claim {cfg : Cfg} {n : Net} {x : Nat} {st : NetStation} {l : Int} (h : Solo cfg n x st l) (hok : cfg.Ok)
+    (coll : Nat) (hst : st.s.st = .listenToken none coll) (now : Int) (hown : n.bus.seen.getD x 0 < now)
+    (hexp : l + (st.s.p.tokenLostTimeout : Nat) ≤ now) (hsync : cfg.b33 < st.s.p.tokenLostTimeout)
+    (hv : RingView [st.s.p.address] st.s.p.address st.s.ring.claimToken) :
+    ∃ n' c, n.poll x now = (n', [], some (.ok c)) ∧ n'.bus.seen.getD x 0 = now ∧ c.tx = some (selfToken st.s.p.address) ∧
+      Solo cfg n' x (upSt st c) (now + (cfg.b33 : Nat)) ∧ SStage.c2.ok c.s ∧
+      RingView [st.s.p.address] st.s.p.address c.s.ring ∧ c.s.p = st.s.p := by
+  have hno : st.s.st ≠ .offline ∧ st.s.st ≠ .passiveIdle := by rw [hst]; simp
+  have hc2 := cfg.ce2 hok.rate
+  have hb33 := h.b33
+  have hd : dispatch { s := st.s, apps := st.apps, rx := [] } now =
+      .ok { s := claimTokS { st.s with st := .claimToken .firstToken } now .firstToken, apps := st.apps, rx := [],
+            tx := some (selfToken st.s.p.address) } := by
+    rw [idle_claims { s := st.s, apps := st.apps, rx := [] } now l ⟨h.son, rfl, rfl, h.stamp⟩ (.inr ⟨none, coll, hst⟩)
+      (by show (now - l).natAbs ≥ st.s.p.tokenLostTimeout; omega)]
+    rw [claimTok_exact _ now l 1 .firstToken (.inl rfl) rfl rfl h.stamp (by show l + ((st.s.p.bits 33 : Nat) : Int) < now; rw [hb33]; omega)]
+  have hst' : (claimTokS { st.s with st := .claimToken .firstToken } now .firstToken).lastBusActivity = some (now + (cfg.b33 : Nat)) := by
+    unfold claimTokS markTx
+    simp only
+    rw [show st.s.p.bits (11 * 3) = cfg.b33 from h.bits 33]
+  obtain ⟨n', hp, hS, hseen⟩ := solo_step h hok.rate now hown (by omega) _ hno.1 hno.2 hd (now + (cfg.b33 : Nat)) h.son rfl rfl hst'
+    (by omega) (fun b hb => by
+      cases hb
+      show now + ((cfg.ce 2 : Nat) : Int) ≤ _
+      omega)
+  exact ⟨n', _, hp, hseen, rfl, hS, rfl, hv, rfl⟩
+
+/-- **Run of a station that is alone on a silent bus** (`T` = stamp + token-lost time-out, `lim` = latest time of
+the first claim, `D` = time budget of the formation): every poll returns regularly and receives nothing; nothing
+is transmitted before `T`; the first poll at or after `T`, no later than `lim`, transmits the first claim token;
+from there the run is a `FormRun` that completes no later than `D` after that poll. -/
+def LoneRun (x ts : Nat) (T lim : Int) (D : Nat) : Net → List Int → Prop
+  | _, [] => True
+  | n, now :: rest =>
+    ∃ n' c, n.poll x now = (n', [], some (.ok c)) ∧
+      ((c.tx = none ∧ now < T ∧ LoneRun x ts T lim D n' rest) ∨
+       (T ≤ now ∧ now ≤ lim ∧ c.tx = some (selfToken ts) ∧ c.s.st = .claimToken .secondToken ∧
+          FormRun x ts (now + (D : Int)) n' rest))
+
+theorem remGap_self (ts hsa : Nat) (h : ts < hsa) : remGap ts hsa ts = hsa - 1 := by
+  unfold remGap; rw [if_neg (by omega)]; omega
+
+theorem lone_cold_start {cfg : Cfg} (hok : cfg.Ok) (x : Nat) (st : NetStation) (l : Int) (coll : Nat) (S : Int) :
+    ∀ (evs : List Int) (n : Net), Solo cfg n x st l → st.s.st = .listenToken none coll →
+    cfg.b33 < st.s.p.tokenLostTimeout → RingView [st.s.p.address] st.s.p.address st.s.ring.claimToken →
+    n.bus.seen.getD x 0 ≤ S → l + (st.s.p.tokenLostTimeout : Nat) ≤ S → SchedXT cfg.P (n.bus.seen.getD x 0) evs →
+    LoneRun x st.s.p.address (l + (st.s.p.tokenLostTimeout : Nat)) (S + (cfg.P : Nat)) (cfg.formTime st.s.p.hsa) n evs := by
+  intro evs
+  induction evs with
+  | nil => intro _ _ _ _ _ _ _ _; trivial
+  | cons now rest ih =>
+    intro n h hst hsync hv hS hT hsch
+    obtain ⟨hlt, hle, hrest⟩ := hsch
+    by_cases hw : now < l + (st.s.p.tokenLostTimeout : Nat)
+    · obtain ⟨n', c, hp, htx, hS', hseen⟩ := lone_listen_wait h hok coll hst now hlt hw
+      refine ⟨n', c, hp, .inl ⟨htx, hw, ?_⟩⟩
+      exact ih n' hS' hst hsync hv (by rw [hseen]; omega) hT (by rw [hseen]; exact hrest)
+    · obtain ⟨n', c, hp, hseen, htx, hS', hs2, hv', hp'⟩ := lone_listen_claim h hok coll hst now hlt (by omega) hsync hv
+      refine ⟨n', c, hp, .inr ⟨by omega, by omega, htx, hs2, ?_⟩⟩
+      have e1 : (upSt st c).s.p.address = st.s.p.address := by show c.s.p.address = _; rw [hp']
+      have e2 : (upSt st c).s.p.hsa = st.s.p.hsa := by show c.s.p.hsa = _; rw [hp']
+      refine solo_forms hok x st.s.p.address st.s.p.hsa (now + (cfg.formTime st.s.p.hsa : Nat)) rest n' (upSt st c)
+        (now + (cfg.b33 : Nat)) .c2 hS' hs2 e1 e2 hv' ?_ (by rw [hseen]; exact hrest)
+      rw [hseen]
+      simp only [SStage.wait, SStage.rest, remGap_self _ _ h.inv.addr]
+      unfold Cfg.formTime
+      push_cast
+      omega
+
 end PV
